@@ -39,8 +39,11 @@ class Hooks:
             return True
         if fn.path in self.names:
             return False
-        path = fn.path[1:] if fn.path.startswith("<") else fn.path        # `<module::Type as Trait>::method` belongs to the type's module
-        return not (self.prefixes and path.startswith(self.prefixes))
+        if fn.path.startswith("<") and " as " in fn.path:
+            # `<Type as Trait>::method` belongs to the module of the type or of the trait, whichever is local
+            ty_, tr_ = fn.path[1:].split(" as ", 1)
+            return not (self.prefixes and (ty_.startswith(self.prefixes) or tr_.startswith(self.prefixes)))
+        return not (self.prefixes and fn.path.startswith(self.prefixes))
 
 
 # The vocabulary of the evaluation layer: functions that the specifications mention by name and that therefore stay opaque when
